@@ -35,8 +35,8 @@ type RTCase struct {
 var c14Keys = []string{"required", "exist", "either", "botheq", "to", "ge", "le", "oto", "gt", "lt", "eq", "noeq", "in", "include", "phone", "email", "idcard", "year", "year2month", "date", "datetime",
 	"int", "ints", "float", "re", "ip", "ipv4", "ipv6", "unique", "json", "prefix", "suffix", "file", "dir", "mycheck", "x", "自定义"}
 
-var c14ValRunes = []rune("ab1XYZ09测试=~/() -_.:谬丯%\\") // 谬 U+8C2C, 丯 U+4E2F: code points whose low byte is ',' / '/'
-var c14MsgRunes = []rune("ab1XYZ09测试=~/() -_.:|!谬丯%")
+var c14ValRunes = []rune("ab1XYZ09测试=~/() -_.:谬丯%\\｜") // 谬 U+8C2C, 丯 U+4E2F: code points whose low byte is ',' / '/'
+var c14MsgRunes = []rune("ab1XYZ09测试=~/() -_.:|!谬丯%｜")
 
 func genText(t *rapid.T, pool []rune, lo, hi int, label string) string {
 	n := rapid.IntRange(lo, hi).Draw(t, label+"Len")
